@@ -22,6 +22,7 @@ def main(argv=None):
     parser.add_argument('--tier', default=os.environ.get('VERIF_TIER', 'quick'), choices=('quick', 'thorough'))
     parser.add_argument('--replay', default=None)
     parser.add_argument('--expect', default=None)
+    parser.add_argument('--shrink-history', action='store_true', help='minimise the history in the replay file first')
     parser.add_argument('--mini-digest', type=int, default=None)
     parser.add_argument('--aux', nargs='+', default=None, help='module-specific sub-command run in a fresh interpreter')
     args = parser.parse_args(argv)
@@ -42,6 +43,8 @@ def main(argv=None):
         if args.replay:
             if hasattr(module, 'prepare'):
                 module.prepare(args.tier)
+            if args.shrink_history:
+                core.shrink_history_file(module, args.replay)
             return core.replay(module, args.replay, args.expect)
         if args.mini_digest is not None:
             extra = module.prepare(args.tier) if hasattr(module, 'prepare') else None
@@ -49,6 +52,27 @@ def main(argv=None):
             return core.EXIT_OK
         print('%s: tier=%s VERIF_SEED=%d repo=%s jobs=%d' % (prop, args.tier, seed, core.REPO, core.jobs()))
         return module.check(args.tier, seed)
+    except core.HistoryViolation as exc:
+        # the determinism self-test failed because results depend on earlier calls: the library's doing
+        known = core.load_known_findings(prop)
+        fresh = [sig for sig in exc.sigs if sig not in known]
+        for sig in exc.sigs:
+            if sig in known:
+                print('KNOWN-FINDING: property=%s %s  [signature %s]' % (prop, known[sig].get('what', ''), sig))
+        if not fresh:
+            print('HARNESS-ERROR: the determinism self-test failed on listed findings only; the batch cannot run')
+            return core.EXIT_HARNESS
+        print('VIOLATION property=%s replay=%s' % (prop, exc.path))
+        for sig in fresh[:6]:
+            print('  signature: %s' % sig)
+        print('  clause:    the same schedules executed twice in one process differ; as one history of runs in a fresh '
+              'interpreter each run alone in a pristine child differs from the run in order')
+        core.write_evidence(prop, args.tier, seed, 'exploration', {
+            'evaluations': 2, 'distinct_nontrivial': 2, 'samples': [{'replay': exc.path, 'signatures': fresh[:6]}],
+            'rule': 'determinism self-test only (its schedules executed twice as one history of runs, alone vs. in '
+                    'order): the batch was not run because results depend on earlier calls in the same process',
+            'exhaustive': False}, [], 0.0, len(fresh))
+        return core.EXIT_VIOLATION
     except core.HarnessError as exc:
         print('HARNESS-ERROR: %s' % exc)
         return core.EXIT_HARNESS
